@@ -153,6 +153,13 @@ theorem removeImport_orig (st st' : St) (imp : Imp) (ln : Nat) (h : removeImport
     · cases h
   · cases h
 
+theorem insertNewImportBlock_orig (st st1 : St) (id : Nat) (h : insertNewImportBlock st = (st1, id)) :
+    origStmts st1.blocks = origStmts st.blocks := by
+  unfold insertNewImportBlock at h
+  split at h
+  · cases h; rfl
+  · cases h; exact origStmts_insertAfterComments _ _
+
 theorem addImport_orig (st st' : St) (imp : Imp) (ml : Option Nat) (h : addImport st imp ml = .ok st') :
     origStmts st'.blocks = origStmts st.blocks := by
   unfold addImport at h
@@ -165,9 +172,7 @@ theorem addImport_orig (st st' : St) (imp : Imp) (ml : Option Nat) (h : addImpor
     simp only [origStmts_updSet]
     split at hsel
     · cases hsel; rfl
-    · unfold insertNewImportBlock at hsel
-      cases hsel
-      exact origStmts_insertAfterComments _ _
+    · exact insertNewImportBlock_orig _ _ _ hsel
 
 theorem removeAll_orig (st st' : St) (us : List (Nat × Imp)) (h : removeAll st us = .ok st') :
     origStmts st'.blocks = origStmts st.blocks := by
@@ -349,6 +354,32 @@ theorem newBlock_mem_insertAfterComments (blocks : List Block) (id : Nat) :
       · split <;> simp
       · split <;> simp
 
+theorem futureBlockId_blockId (b : Block) (fid : Nat) (h : futureBlockId b = some fid) : blockId b = some fid := by
+  cases b with
+  | verbatim ss ins => simp [futureBlockId] at h
+  | imports id s l e bl set =>
+    simp only [futureBlockId] at h
+    split at h
+    · simpa [blockId] using h
+    · cases h
+
+theorem leadingFuture_mem (blocks : List Block) (fid : Nat) (h : leadingFuture blocks = some fid) :
+    ∃ b ∈ blocks, blockId b = some fid := by
+  unfold leadingFuture at h
+  obtain ⟨b, hb, hf⟩ := List.exists_of_findSome?_eq_some h
+  exact ⟨b, List.mem_reverse.mp hb, futureBlockId_blockId b fid hf⟩
+
+/-- `insert_new_import_block` yields a block that exists afterwards, and keeps all imports -/
+theorem insertNewImportBlock_spec (st st1 : St) (id : Nat) (h : insertNewImportBlock st = (st1, id)) :
+    (∃ b ∈ st1.blocks, blockId b = some id) ∧ allImports st1.blocks = allImports st.blocks := by
+  unfold insertNewImportBlock at h
+  split at h
+  · rename_i fid hf
+    cases h
+    exact ⟨leadingFuture_mem _ _ hf, rfl⟩
+  · cases h
+    exact ⟨newBlock_mem_insertAfterComments _ _, allImports_insertAfterComments _ _⟩
+
 theorem pickBest_mem (cs : List ((Nat × Nat) × Nat)) (c : (Nat × Nat) × Nat) (h : pickBest cs = some c) : c ∈ cs := by
   induction cs generalizing c with
   | nil => simp [pickBest] at h
@@ -403,9 +434,7 @@ theorem addImport_adds (st st' : St) (imp : Imp) (ml : Option Nat) (h : addImpor
       · rename_i id' hs
         cases hsel
         exact ⟨selectBlock_exists _ _ _ _ hs, rfl⟩
-      · unfold insertNewImportBlock at hsel
-        cases hsel
-        exact ⟨newBlock_mem_insertAfterComments _ _, allImports_insertAfterComments _ _⟩
+      · exact insertNewImportBlock_spec _ _ _ hsel
     refine ⟨allImports_updSet_with_new _ _ _ hex.1, ?_, ?_⟩
     · intro i hi
       apply allImports_updSet_with_mono
@@ -442,9 +471,7 @@ theorem addImport_exists_mem (st : St) (imp : Imp) (ml : Option Nat) (e : Err)
     have hall : allImports st1.blocks = allImports st.blocks := by
       split at hsel
       · cases hsel; rfl
-      · unfold insertNewImportBlock at hsel
-        cases hsel
-        exact allImports_insertAfterComments _ _
+      · exact (insertNewImportBlock_spec _ _ _ hsel).2
     rw [← hall]
     cases hf : st1.blocks.find? (fun b => blockId b = some id) with
     | none => simp [hf] at hmem
